@@ -53,7 +53,7 @@ class G:
                 d = r.choice([1, 2, 3, 5, 7, -1, -2, -3, 10])
                 return "(%s %s %d)" % (r.choice(["/", "%"]), self.expr("int", env, depth + 1), d)
             if c < 0.65:
-                avs = [n for n, (t, m) in env.items() if t == "array<int>" and n in self.nonempty]
+                avs = [n for n, (t, m) in env.items() if t == "array<int>" and self.nonempty.get(n, 0) > 0]
                 if avs:
                     a = r.choice(avs)
                     self.flags.add("array_get")
@@ -107,7 +107,7 @@ class G:
             if c < 0.7:
                 self.flags.add("int_to_string")
                 return "(int_to_string %s)" % self.expr("int", env, depth + 1)
-            avs = [n for n, (t, m) in env.items() if t == "array<string>" and n in self.nonempty]
+            avs = [n for n, (t, m) in env.items() if t == "array<string>" and self.nonempty.get(n, 0) > 0]
             if avs:
                 a = r.choice(avs)
                 self.flags.add("array_get_str")
